@@ -1043,6 +1043,36 @@ func (u *Unit) extractAtoms(g *GuardEngine) {
 		}
 		call, ok := last.(*ast.CallExpr)
 		if !ok {
+			// a predicate's `return A && B` (`return x.Size() >= t && x.IsSubSet(ps)`) is
+			// `if !A || !B { return false }; return true`: every conjunct is a guard of the true result
+			res0 := ast.Unparen(res[len(res)-1])
+			if be, isBin := res0.(*ast.BinaryExpr); isBin && isBoolType(u.Info.TypeOf(res0)) && !u.FR[ex.Block] {
+				if tv, has := u.Info.Types[res0]; !has || tv.Value == nil {
+					var leaves []leafInfo
+					splitLeaves(be, false, &leaves)
+					for _, lf := range leaves {
+						a := &Atom{Tail: true, Leaf: lf.expr, FailTrue: lf.failTrue, Block: ex.Block, Unit: u, Pos: lf.expr.Pos(), Must: pd[ex.Block] && u.singleOutputExit(ex), InLit: u.Lit != nil}
+						var calls []*ast.CallExpr
+						u.rootCalls(lf.expr, ex.Ret, map[ast.Node]bool{}, 0, &calls)
+						a.Calls = calls
+						ks := map[string]bool{}
+						for _, c := range calls {
+							if k := u.calleeKey(c); k != "" {
+								ks[k] = true
+							}
+						}
+						for k := range ks {
+							a.Callees = append(a.Callees, k)
+						}
+						sort.Strings(a.Callees)
+						a.Shape = u.leafShape(lf.expr, lf.failTrue)
+						u.leafMode = true
+						a.ShapeP = u.leafShape(lf.expr, lf.failTrue)
+						u.leafMode = false
+						u.Atoms = append(u.Atoms, a)
+					}
+				}
+			}
 			continue
 		}
 		// only calls that produce the error/bool result themselves (not constructors of error values)
@@ -1100,24 +1130,39 @@ func (u *Unit) extractAtoms(g *GuardEngine) {
 		if !ok || ifs.Else != nil || len(ifs.Body.List) == 0 {
 			return true
 		}
-		br, ok := ifs.Body.List[len(ifs.Body.List)-1].(*ast.BranchStmt)
-		if !ok || br.Tok != token.CONTINUE {
-			return true
-		}
 		blk := u.BlockOf(ifs.Cond)
 		if blk == nil || !blk.Live || u.FR[blk] {
 			return true
 		}
-		// a `continue` with nothing after it in the loop body filters nothing
-		if u.lastInLoopBody(ifs) && br.Label == nil {
-			return true
+		skipWhen := true
+		br, ok := ifs.Body.List[len(ifs.Body.List)-1].(*ast.BranchStmt)
+		if ok && br.Tok == token.CONTINUE {
+			// a `continue` with nothing after it in the loop body filters nothing
+			if u.lastInLoopBody(ifs) && br.Label == nil {
+				return true
+			}
+		} else {
+			// `for … { if c { body } }` is `for … { if !c { continue }; body }`: the same element filter
+			if !u.lastInLoopBody(ifs) || len(blk.Succs) != 2 || u.FR[blk.Succs[0]] || u.FR[blk.Succs[1]] {
+				return true
+			}
+			if _, isRet := ifs.Body.List[len(ifs.Body.List)-1].(*ast.ReturnStmt); isRet {
+				return true // a search loop (`if found { return x }`), not a filter
+			}
+			if bs, isBr := ifs.Body.List[len(ifs.Body.List)-1].(*ast.BranchStmt); isBr && bs.Tok == token.BREAK {
+				return true
+			}
+			skipWhen = false
 		}
 		var leaves []leafInfo
-		splitLeaves(ifs.Cond, true, &leaves)
+		splitLeaves(ifs.Cond, skipWhen, &leaves)
 		for _, lf := range leaves {
 			a := &Atom{Leaf: lf.expr, FailTrue: lf.failTrue, Block: blk, Unit: u, Pos: lf.expr.Pos(), Must: pd[blk], InLit: u.Lit != nil, Skip: true}
 			if len(blk.Succs) == 2 {
 				a.FailSucc, a.OkSucc = blk.Succs[0], blk.Succs[1]
+				if !skipWhen {
+					a.FailSucc, a.OkSucc = blk.Succs[1], blk.Succs[0]
+				}
 			}
 			var calls []*ast.CallExpr
 			u.rootCalls(lf.expr, ifs.Cond, map[ast.Node]bool{}, 0, &calls)
